@@ -51,7 +51,16 @@ class TraceGen:
             e.pop("via", None)
         return e
 
+    def net(self):
+        """The netlist under trace: the built one, or its clone (the last netlist bound)."""
+        hs = [h for h in self.w.order if kind_of(self.w.handles[h]) == "netlist"]
+        return self.w.handles[hs[-1]] if self.cfg.get("trace_clone") and len(hs) > 1 else self.w.h(self.b.netlist)
+
     def _call(self):
+        if self.cfg.get("trace_clone") and not getattr(self, "cloned", False):
+            # the design is copied first and the copy is what gets traced (a copy answers like its source)
+            self.cloned = True
+            return {"op": "clone", "on": self.b.netlist}
         if getattr(self, "pending", None):
             return self.pending.pop(0)
         if self.left > 0 and self.r.random() < self.cfg.get("edit_rate", 0.0):
@@ -68,7 +77,7 @@ class TraceGen:
         """Between two traces a wire trades one of its pins for a free pin of the same definition (the number of pins
         stays), or a pin is dropped or added: anything remembered from an earlier trace is stale now."""
         w, r = self.w, self.r
-        n = w.h(self.b.netlist)
+        n = self.net()
         hd = w.handle_of
 
         def ref(p):
@@ -109,7 +118,7 @@ class TraceGen:
             return None
         self.left -= 1
         w, r = self.w, self.r
-        n = w.h(self.b.netlist)
+        n = self.net()
         el = Elab(n)
         hd = w.handle_of
         for _ in range(30):
@@ -176,6 +185,7 @@ class C12(Prop):
         cfg["connect_rate"] = rng.choice([0.6, 0.9, 0.9])
         cfg["passthrough"] = rng.random() < 0.7
         cfg["edit_rate"] = rng.choice([0.0, 0.0, 0.15, 0.3])
+        cfg["trace_clone"] = rng.random() < 0.15
         return cfg
 
     def make_gen(self, w, rng, cfg):
@@ -186,6 +196,7 @@ class C12(Prop):
     def start(self, w, cfg):
         w.last_trace = None
         self.elab = None
+        self.cfg = cfg
 
     def after(self, w, ev, outcome, pre):
         if ev["op"] != "htrace":
@@ -194,7 +205,7 @@ class C12(Prop):
         if outcome != "ok":
             raise Violation("C12.raised", disc + ":" + outcome.split(":", 1)[-1], "trace raised %s" % outcome)
         start, res = w.last_trace
-        n = [w.handles[h] for h in w.order if kind_of(w.handles[h]) == "netlist"][0]
+        n = [w.handles[h] for h in w.order if kind_of(w.handles[h]) == "netlist"][-1 if self.cfg.get("trace_clone") else 0]
         el = Elab(n)
         if ev.get("plain"):
             # expected = the union of the answers for every occurrence of the element's definition
